@@ -555,7 +555,11 @@ impl Ctx {
         });
         let dir = Path::new(&verif_dir()).join("evidence");
         let _ = std::fs::create_dir_all(&dir);
-        let path = dir.join(format!("{}.json", self.prop));
+        // a secondary run (second build of the library, see ./check) writes elsewhere and is merged by the driver
+        let path = match std::env::var("VVERIF_EVIDENCE_PATH") {
+            Ok(p) if !p.is_empty() => PathBuf::from(p),
+            _ => dir.join(format!("{}.json", self.prop)),
+        };
         if let Err(e) = std::fs::write(&path, serde_json::to_string_pretty(&ev).unwrap()) {
             eprintln!("cannot write evidence {}: {e}", path.display());
             return 2;
